@@ -19,7 +19,44 @@ pub fn assumption_broken() -> bool {
     ASSUME_BROKEN.with(|c| *c.borrow())
 }
 
+thread_local! {
+    static RNG: RefCell<Option<u64>> = RefCell::new(None);
+}
+
+/// Smoke mode (not part of any claim): `any()` draws biased pseudo-random bytes instead of recorded values.
+pub fn load_random(seed: u64) {
+    RNG.with(|r| *r.borrow_mut() = Some(seed.wrapping_mul(0x9E3779B97F4A7C15) | 1));
+    ASSUME_BROKEN.with(|c| *c.borrow_mut() = false);
+}
+
+fn rnd() -> Option<u64> {
+    RNG.with(|r| {
+        let mut r = r.borrow_mut();
+        match *r {
+            None => None,
+            Some(mut x) => { x ^= x << 13; x ^= x >> 7; x ^= x << 17; *r = Some(x); Some(x) }
+        }
+    })
+}
+
 fn next(size: usize) -> Vec<u8> {
+    if let Some(x) = rnd() {
+        let mut bytes = vec![0u8; size];
+        let style = x % 4;
+        if style == 0 {
+            bytes[0] = ((x >> 8) % 20) as u8; // small value
+        } else if style == 1 {
+            // boundary values
+            let pick = (x >> 8) % 4;
+            for (i, b) in bytes.iter_mut().enumerate() {
+                *b = match pick { 0 => 0xff, 1 => if i + 1 == size { 0x80 } else { 0 }, 2 => if i + 1 == size { 0x7f } else { 0xff }, _ => 0 };
+            }
+        } else {
+            let mut y = x;
+            for b in bytes.iter_mut() { y ^= y << 13; y ^= y >> 7; y ^= y << 17; *b = (y >> 24) as u8; }
+        }
+        return bytes;
+    }
     let i = CURSOR.with(|c| { let mut c = c.borrow_mut(); let i = *c; *c += 1; i });
     let mut bytes = VALUES.with(|v| v.borrow().get(i).cloned()).unwrap_or_default();
     bytes.resize(size, 0);
